@@ -54,6 +54,8 @@ def deps(facts, a, t, point, depth=0, _seen=None):
         argdeps = [deps(facts, a, x, p2, depth + 1) for x in args]
         if info and info[0] and info[0].startswith('op_mode::'):
             out.add(('method', info[1]))
+        if info and info[0] and info[0].startswith('dhkex::'):
+            out.add(('op', info[1]))          # a DH-trait operation, whichever impl it resolves to
         targets = callee_targets(facts, info, path) if info else []
         if targets and info and info[3]:
             # resolved local callee: map its return dependences through the arguments
